@@ -557,7 +557,18 @@ def run_copy(block, ctx):
 def alphabets(spec):
     al = []
     for (kind, base, alts) in spec["params"]:
-        items = [("base", base)] + [("alt", a) for a in alts] + [("ill", v) for v in SP.ILL[kind]]
+        ill = list(SP.ILL[kind])
+        if kind == "str":
+            # out-of-range spellings derived from the documented ones: empty, prefixes, suffixes, other case,
+            # trailing blank, two valid values glued together
+            valid = [v for v in [base] + list(alts) if isinstance(v, str)]
+            for v in valid:
+                for w in ("", v[:1], v[:3], v[:-1], v[-3:], v.upper(), v.capitalize(), v + " ", " " + v):
+                    if w not in valid and w not in ill:
+                        ill.append(w)
+            if len(valid) > 1 and (valid[0] + valid[1]) not in ill:
+                ill.append(valid[0] + valid[1])
+        items = [("base", base)] + [("alt", a) for a in alts] + [("ill", v) for v in ill]
         al.append(items)
     return al
 
